@@ -30,26 +30,57 @@ def variant_name(t):
     return None
 
 
+def scrutinee_constraint(p, scrutinee):
+    """all the path's constraints on `scrutinee` combined: an int when the value is fixed, else ('not', excluded values), else None"""
+    fixed, excl, seen = None, set(), False
+    for t, val in p.cons:
+        if t != scrutinee:
+            continue
+        seen = True
+        if isinstance(val, int):
+            fixed = val
+        else:
+            excl |= set(val[1])
+    if fixed is not None:
+        return fixed
+    return ('not', tuple(sorted(excl))) if seen else None
+
+
+class _Excluded(tuple):
+    """the values excluded on *every* default path (a value outside it may still be excluded on some of them: use paths_for)"""
+
+
 def enum_table(paths, scrutinee):
-    """Decision table of a function that switches on `scrutinee` (a term): returns
-    (rows, default) where rows: value -> list of paths, default: (excluded values, paths)."""
+    """Decision table of a function that switches on `scrutinee` (a term): returns (rows, (excluded, default)) where
+    rows: value -> list of paths whose constraints fix that value, default: the other paths, excluded: the values that no
+    default path admits.  Several tests of the same scrutinee on one path (`x == A || x == B`) are combined."""
     rows = {}
     default = []
-    excluded = None
+    per_path = []
     for p in paths:
-        v = None
-        for t, val in p.cons:
-            if t == scrutinee:
-                v = val
-                break
-        if v is None:
-            default.append(p)
-        elif isinstance(v, int):
+        v = scrutinee_constraint(p, scrutinee)
+        if isinstance(v, int):
             rows.setdefault(v, []).append(p)
         else:
-            excluded = v[1]
             default.append(p)
-    return rows, (excluded, default)
+            per_path.append(set(v[1]) if v is not None else set())
+    excluded = None
+    if per_path and any(per_path):
+        common = set.intersection(*per_path) if per_path else set()
+        excluded = tuple(sorted(common))
+    table_default = _FilteredPaths(default, per_path)
+    return rows, (excluded, table_default)
+
+
+class _FilteredPaths(list):
+    """default paths that remember, per path, which scrutinee values they exclude; `for_value(v)` keeps the admitting ones"""
+
+    def __init__(self, paths, excl):
+        super().__init__(paths)
+        self.excl = excl
+
+    def for_value(self, v):
+        return [p for p, e in zip(self, self.excl) if v not in e]
 
 
 def shapetype_discr(F):
